@@ -62,6 +62,7 @@ func IsECDHE(suite uint16) bool { return suite == 0xe051 || suite == 0xe011 }
 // half is one direction of record protection.
 type half struct {
 	padMut func(pad []byte) // test hook: alters the CBC padding bytes after the MAC was computed
+	rawPT  []byte           // test hook: the CBC plaintext (payload, MAC and padding) is replaced by these blocks
 	on     bool
 	gcm    bool
 	k      dirKeys
@@ -105,6 +106,9 @@ func (h *half) seal(seq8 []byte, typ byte, vers uint16, payload []byte) []byte {
 	}
 	if h.padMut != nil {
 		h.padMut(pt[len(pt)-pad:])
+	}
+	if h.rawPT != nil {
+		pt = h.rawPT
 	}
 	iv := make([]byte, 16)
 	rand.Read(iv)
